@@ -520,6 +520,12 @@ for j in fails[:5]:
 
 samples.append({"transfer_func_to_timetraces": {"num_cycles": cfgs[0][0], "centre_freq": cfgs[0][1], "dt": cfgs[0][2],
                                                 "aligned_delays_checked": n_aligned, "fractional": n_frac}})
+# ---- the glue model of the public functions (Model files added later, see manifest text) tied to the library on every run:
+#      inputs generated here, the library run on them, the model evaluated on the same inputs by vm_compute inside coqc
+import ties.tie_C11 as _tie_glue  # noqa: E402
+_tie_n = _tie_glue.run(chk, arim, rng, Q)
+chk.cov["glue_model_tie_comparisons"] = int(_tie_n or 0)
+
 chk.finish(
     evaluations=evaluations,
     distinct_nontrivial=len(nontrivial),
